@@ -29,6 +29,11 @@ type settingProbe struct {
 	Default string   // effective default: "off"/"on" for bool, "" for value-typed
 	// Good: generation of a probe method succeeds iff its effective value is Good ("" = always succeeds)
 	Good string
+	// NestedM1: both probe methods reach the SAME enum pair at a nested position. An enum
+	// pair is converted by a generated method that carries the converter-level settings, and
+	// it only is an enum pair in a method whose own value is on: the enum conversion happens
+	// (and fails for want of enum:unknown) iff method value and converter-level value are on.
+	NestedM1 bool
 	// Marker: substring of the emitted method that is present iff the effective value is the key
 	Marker map[string]string
 }
@@ -41,6 +46,7 @@ var c12Probes = []settingProbe{
 	{Key: "matchIgnoreCase", Conv: "PMatchIgnoreCase", Default: "off", Good: "on"},
 	{Key: "useUnderlyingTypeMethods", Conv: "PUnderlying", Default: "off", Good: "on"},
 	{Key: "enum", Conv: "PEnum", Default: "on", Good: "off"},
+	{Key: "enum", Conv: "PEnumShared", Default: "on", Good: "off", NestedM1: true},
 	{Key: "wrapErrors", Conv: "PWrapErrors", Default: "off", Marker: map[string]string{"on": `fmt.Errorf("error setting field`}},
 	{Key: "update:ignoreZeroValueField", Conv: "PZeroField", Default: "off", Marker: map[string]string{"on": "if source.A != 0 {"}},
 	{Key: "update:ignoreZeroValueField:basic", Conv: "PZeroBasic", Default: "off", Marker: map[string]string{"on": "if source.A != 0 {"}},
@@ -82,6 +88,7 @@ func funcTexts(src string) map[string]string {
 // placement: what is written at the three levels; "" = absent; bool: bare|yes|no; value: the value.
 type placement struct {
 	Probe  string `json:"probe"`
+	PConv  string `json:"pconv,omitempty"`
 	CLI    string `json:"cli"`
 	Conv   string `json:"conv"`
 	Method string `json:"method"`
@@ -230,13 +237,14 @@ func lines(ss ...string) []string {
 func c12EvalPlacement(s *vh.Session, l *vh.Loaded, pl placement) string {
 	var p settingProbe
 	for _, x := range c12Probes {
-		if x.Key == pl.Probe {
+		if x.Key == pl.Probe && (pl.PConv == "" || pl.PConv == x.Conv) {
 			p = x
 		}
 	}
 	eff := p.effective(pl)
 	// the sibling method states its own value: the opposite of what it would inherit
 	inherit := p.effective(placement{CLI: pl.CLI, Conv: pl.Conv})
+
 	var sibEff string
 	if p.Values != nil && inherit == "" {
 		sibEff = p.Values[1]
@@ -254,6 +262,10 @@ func c12EvalPlacement(s *vh.Session, l *vh.Loaded, pl placement) string {
 	}
 	wantOK := p.good(eff) && p.good(sibEff)
 	desc := fmt.Sprintf("%s: method M1 has effective value %q, sibling M2 states %q", p.Key, eff, sibEff)
+	if p.NestedM1 {
+		wantOK = !(eff == "on" && inherit == "on") && !(sibEff == "on" && inherit == "on")
+		desc += fmt.Sprintf(", converter level %q, shared nested enum pair", inherit)
+	}
 	if got.OK != wantOK {
 		return fmt.Sprintf("%s: generation %s, expected that it %s\n%s", desc, okWord(got.OK), okWord(wantOK), vh.FirstLines(got.Err, 8))
 	}
@@ -267,6 +279,9 @@ func c12EvalPlacement(s *vh.Session, l *vh.Loaded, pl placement) string {
 				}
 			}
 		}
+	}
+	if p.NestedM1 {
+		return ""
 	}
 	// canonical spelling: the same effective values written on the methods only
 	var m1 []string
@@ -285,7 +300,7 @@ func c12EvalPlacement(s *vh.Session, l *vh.Loaded, pl placement) string {
 func c12CLI(s *vh.Session, pl placement) string {
 	var p settingProbe
 	for _, x := range c12Probes {
-		if x.Key == pl.Probe {
+		if x.Key == pl.Probe && (pl.PConv == "" || pl.PConv == x.Conv) {
 			p = x
 		}
 	}
@@ -307,6 +322,7 @@ func c12CLI(s *vh.Session, pl placement) string {
 	block := src[head:end]
 	eff := p.effective(pl)
 	inherit := p.effective(placement{CLI: pl.CLI, Conv: pl.Conv})
+
 	var sibEff string
 	if p.Values != nil && inherit == "" {
 		sibEff = p.Values[1]
@@ -330,6 +346,9 @@ func c12CLI(s *vh.Session, pl placement) string {
 	run := s.RunCLI(dir, append(args, "./p")...)
 	s.Eval(1)
 	wantOK := p.good(eff) && p.good(sibEff)
+	if p.NestedM1 {
+		wantOK = !(eff == "on" && inherit == "on") && !(sibEff == "on" && inherit == "on")
+	}
 	desc := fmt.Sprintf("CLI: %s: method M1 has effective value %q, sibling M2 states %q", p.Key, eff, sibEff)
 	if (run.Exit == 0) != wantOK {
 		return fmt.Sprintf("%s: goverter exited with %d, expected that generation %s\n%s", desc, run.Exit, okWord(wantOK), vh.FirstLines(run.Stderr, 8))
@@ -455,6 +474,9 @@ func TestC12(t *testing.T) {
 	}
 	// probe sensitivity: each probe must tell its two values apart, otherwise the table is vacuous
 	for _, p := range c12Probes {
+		if p.NestedM1 {
+			continue
+		}
 		a, b := "yes", "no"
 		if p.Values != nil {
 			a, b = p.Values[0], p.Values[1]
@@ -483,7 +505,7 @@ func TestC12(t *testing.T) {
 					if k%s.NShards != s.Shard {
 						continue
 					}
-					pl := placement{Probe: p.Key, CLI: cli, Conv: cv, Method: m}
+					pl := placement{Probe: p.Key, PConv: p.Conv, CLI: cli, Conv: cv, Method: m}
 					set := 0
 					for _, v := range []string{cli, cv, m} {
 						if v != "" {
@@ -493,7 +515,7 @@ func TestC12(t *testing.T) {
 					if set >= 2 {
 						s.Nontrivial(fmt.Sprintf("%+v", pl), pl)
 					}
-					s.Label("table:" + p.Key)
+					s.Label("table:" + p.Key + "@" + p.Conv)
 					if msg := c12EvalPlacement(s, l, pl); msg != "" {
 						s.FailT(t, "placement", pl, msg)
 					}
@@ -548,7 +570,7 @@ func TestC12(t *testing.T) {
 		rapid.Check(t, func(rt *rapid.T) {
 			p := rapid.SampledFrom(c12Probes).Draw(rt, "probe")
 			opts := p.options()
-			pl := placement{Probe: p.Key, CLI: rapid.SampledFrom(opts[1:]).Draw(rt, "cli"), Conv: rapid.SampledFrom(opts).Draw(rt, "conv"), Method: rapid.SampledFrom(opts).Draw(rt, "method")}
+			pl := placement{Probe: p.Key, PConv: p.Conv, CLI: rapid.SampledFrom(opts[1:]).Draw(rt, "cli"), Conv: rapid.SampledFrom(opts).Draw(rt, "conv"), Method: rapid.SampledFrom(opts).Draw(rt, "method")}
 			s.Label("cli-replay:" + p.Key)
 			s.Nontrivial("cli:"+fmt.Sprintf("%+v", pl), nil)
 			if msg := c12CLI(s, pl); msg != "" {
